@@ -44,7 +44,9 @@ def _native_outcome(rule_name, seq, collecting):
     errs = [] if collecting else None
     try:
         r.validate_rule(parent, errs)
-    except (ChildNotAllowedError, MinOccurrenceUnmetError, MaxOccurrenceExceededError):
+    except (ChildNotAllowedError, MinOccurrenceUnmetError, MaxOccurrenceExceededError) as e:
+        if collecting:
+            return "exception:%s (raised although an error list was supplied)" % type(e).__name__, []
         return "reject", []
     except Exception as e:
         return "exception:%s" % type(e).__name__, []
